@@ -37,7 +37,7 @@ def run(chk):
                 "pattern, v && w, v || w for all 40 w}; distinct = distinct (position, kind of v, falsey?, kind of w)")
     chk.exhaustive = True
     chk.floor = 1000
-    chk.rule += '; plus filter programs end to end: selection by action-less filters (3 packets), filters with an action never write, a non-matching filter leaves the later filters alone'
+    chk.rule += '; plus filter programs end to end: selection by action-less filters (3 packets), filters with an action never write, a non-matching filter leaves the later filters alone; every position again after 45-1000 filler statements (top level and function bodies)'
     chk.assumptions = ["the 40 representatives stand for their kinds (one falsey and one truthy member per kind where both exist)"]
     PRE = "let __t = []; fn r(x) { push(__t, 1); x }\nlet __o = [];\n"
     cases = []
@@ -61,6 +61,22 @@ def run(chk):
         for j, (ws, wv) in enumerate(REPS):
             add("and%d_%d" % (i, j), "push(__o, %s && r(%s));" % (ts, ws), ("&&", tv, wv))
             add("or%d_%d" % (i, j), "push(__o, %s || r(%s));" % (ts, ws), ("||", tv, wv))
+    # the same positions far from the start of the code: after 45-1000 filler statements at the top level and inside a
+    # function body (jump targets beyond every small operand width)
+    def placed(src, k, where):
+        pad = " ".join("let pad%d = %d;" % (q, q) for q in range(k))
+        return ("%s %s" % (pad, src)) if where == "top" else ("fn host() { %s %s } host();" % (pad, src))
+    for i, (ts, tv) in enumerate(REPS):
+        for pi, (k, where) in enumerate(((45, "top"), (60, "function"), (100, "top"), (300, "function"), (1000, "top"))):
+            if where == "function" and k > 250:
+                k = 250     # a function holds at most 255 locals
+            add("pnot%d_%d" % (i, pi), placed("push(__o, !%s);" % ts, k, where), ("!", tv, None))
+            add("pif%d_%d" % (i, pi), placed("push(__o, if %s { 1 } else { 2 });" % ts, k, where), ("if", tv, None))
+            add("pwh%d_%d" % (i, pi), placed("let n = 0; while %s { n = n + 1; break; } push(__o, n);" % ts, k, where), ("while", tv, None))
+            for j in (0, 7, 19, 33):
+                ws, wv = REPS[(i + j) % len(REPS)]
+                add("pand%d_%d_%d" % (i, pi, j), placed("push(__o, %s && r(%s));" % (ts, ws), k, where), ("&&", tv, wv))
+                add("por%d_%d_%d" % (i, pi, j), placed("push(__o, %s || r(%s));" % (ts, ws), k, where), ("||", tv, wv))
     res = core.run_cases(cases)
     for cid, (src, (pos, tv, wv)) in meta.items():
         r = res.get(cid)
